@@ -63,4 +63,88 @@ PROPS = {
             "cmd/gedcom/diff.go glue is not simulated",
         ],
     },
+    "C19": {
+        "engine": "publish",
+        "level": "fault_enumeration",
+        "design_ref": "DESIGN.md §5 C19",
+        "technique": "deterministic simulation: Publisher.Publish on a simulated disk under a seeded scheduler; file history compared across schedules, jobs, map orders and process histories; writer failure injected at every k-th file",
+        "level_text": ("For every generated document the file-writer fault position is enumerated completely (WriteFile call k fails for every k of the fault-free run, "
+                       "transient and sticky, with 1 and with several workers) and Publish must stop and return an error; documents, options, schedules, map orders and "
+                       "process histories are sampled by seed. The recorded (name, bytes) history of the simulated disk is checked for confinement, collisions, link closure "
+                       "and byte-identity across schedules x jobs x map order x earlier publishes x a fresh process, and the race detector runs under the serialised schedule."),
+        "level_note": ("Trusts: instrumenter (upstream unit tests pass on the instrumented copy), Go race detector, the simulated disk (stub for core.FileWriter; the real "
+                       "DirectoryFileWriter is not run). A clock jump during one publish is deliberately not injected (the statement promises a function of document and options). "
+                       "Known findings (not repaired, see known_findings.json) are matched by cause-specific signatures."),
+        "rule": ("cases = seeded hostile family-graph documents (hostile pointers, colliding names and places, odd surnames) x page-group options x visibility; per case: one "
+                 "canonical publish, 2-3 variants (jobs in {1,2,8,16} x scheduler configuration x map order x publish of another/the same document before), optionally the same "
+                 "publish in a fresh process, and one publish per enumerated writer-fault position. one evaluation = one simulated Publish. distinct_nontrivial = distinct "
+                 "contended-schedule hashes of variant runs that deviated from the default schedule plus distinct (document, options, k, jobs, sticky) fault injections that fired."),
+        "tiers": {
+            "quick": {"cases": 160, "wall_s": 90, "seed": 1, "minimise_s": 40, "case_budget_s": 120},
+            "thorough": {"cases": 12000, "wall_s": 1800, "seed": 1001, "minimise_s": 120, "case_budget_s": 300},
+        },
+        "probes_wanted": ["jobs>1", "variants_compared", "fresh_process_compared", "writer_failed_with_jobs>1", "producer_left_blocked_after_failure", "files"],
+        "shrink_lists": [["publish", "variants"], ["publish", "faults"]],
+        "shrink_scalars": [_set(["publish", "fresh_process"], False), _set(["publish", "options", "statistics"], False), _set(["publish", "options", "sources"], False),
+                           _set(["publish", "options", "surnames"], False), _set(["publish", "options", "families"], False), _set(["publish", "options", "places"], False)],
+        "components": comp(["file system: simulated disk implementing core.FileWriter (records name, bytes, error per call; fault plan)"]),
+        "assumptions": [
+            "documents, options, schedules, map orders and histories are sampled by seed; only the writer-fault position k is enumerated completely per case",
+            "the clock is constant during one publish and equal for all runs that are compared",
+            "a panic on a failing writer is recorded as an observation (it stops and is loud); hangs and silent success are violations",
+            "the real DirectoryFileWriter and the real file system are not run",
+        ],
+    },
+    "C17": {
+        "engine": "publish",
+        "level": "exploration",
+        "design_ref": "DESIGN.md §5 C17",
+        "technique": "deterministic simulation: publish to a simulated disk under seeded schedules, jobs, simulated clock (age rule) and process history; marker search and two-run non-interference over the recorded file history",
+        "level_text": ("Seeded exploration of documents in which every private string is a unique marker token, with living people in every role, x visibility {hide, placeholder} x "
+                       "page groups x jobs x schedules x simulated 'today' x earlier publishes in the same process. Oracles over the simulated disk's file history: no private name "
+                       "token of a living individual in any file name or content; every non-living individual keeps a page; in hide mode publishing D and D' (living people's names, "
+                       "dates, places replaced) gives byte-identical sites although the two runs use different schedules and jobs."),
+        "level_note": ("Who is living is decided by the oracle from the generated facts (death event, or born 5-80 / >=120 years before the simulated today), never by calling IsLiving. "
+                       "Nicknames and notes are not treated as names. Trusts the instrumenter, the simulated disk and the fake clock."),
+        "rule": ("cases = seeded marker-token family graphs x options x jobs x scheduler configuration x today x history; one evaluation = one simulated Publish (1 to 3 per case). "
+                 "distinct_nontrivial = distinct contended-schedule hashes among runs that deviated from the default schedule."),
+        "tiers": {
+            "quick": {"cases": 1600, "wall_s": 75, "seed": 1, "minimise_s": 40},
+            "thorough": {"cases": 100000, "wall_s": 1500, "seed": 1001, "minimise_s": 120},
+        },
+        "probes_wanted": ["jobs>1", "has_living_people", "visibility=hide", "visibility=placeholder", "hide_noninterference_compared", "nonliving_checked"],
+        "shrink_lists": [["publish", "variants"]],
+        "shrink_scalars": [_set(["publish", "jobs"], 1), _set(["publish", "options", "statistics"], False), _set(["publish", "options", "sources"], False),
+                           _set(["publish", "options", "families"], False), _set(["publish", "options", "places"], False), _set(["publish", "options", "surnames"], False)],
+        "components": comp(["file system: simulated disk implementing core.FileWriter"]),
+        "assumptions": [
+            "inputs, options, schedules, clock dates and histories are sampled by seed",
+            "the living rule is applied by the oracle with a margin (born 5-80 years before today = living, >= 120 years = not living), so the year-fraction arithmetic cannot matter",
+            "tokens deliberately shared with a non-living person are not private",
+        ],
+    },
+    "C14": {
+        "engine": "commands",
+        "level": "exploration",
+        "design_ref": "DESIGN.md §5 C14",
+        "technique": "deterministic simulation: the library work behind warnings / publish / diff / query on structurally corrupted (storage-fault) files, inside the seeded scheduler that captures panics in any goroutine and hangs",
+        "level_text": ("Seeded exploration: random family graphs perturbed by 0-4 of the structural faults the property lists, driven through the library pipelines of each command "
+                       "(warnings, publish in every visibility and page-group subset with jobs 1/2/8, diff with every -show/-sort and jobs 1/4, the documented example queries with "
+                       "every formatter) inside the scheduler. Outcome must be completed or error: a panic in any goroutine, a runtime fatal error and a hang are violations."),
+        "level_note": ("Partial claim: cmd/gedcom's flag parsing, log.Fatal, signal handler and progress bars are not simulated; process exit status is not observed. "
+                       "Worker panics are visible because the instrumented go statement wraps every goroutine; fatal errors and CPU loops are caught by the driver's worker watchdog."),
+        "rule": ("cases = seeded family graphs x structural faults x command x options x scheduler configuration; one evaluation = one simulated command. "
+                 "distinct_nontrivial = distinct case hashes among cases with at least one structural fault applied."),
+        "tiers": {
+            "quick": {"cases": 2400, "wall_s": 75, "seed": 1, "minimise_s": 40},
+            "thorough": {"cases": 150000, "wall_s": 1500, "seed": 1001, "minimise_s": 120},
+        },
+        "probes_wanted": ["command=warnings", "command=publish", "command=diff", "command=query", "visibility=hide", "visibility=show", "visibility=placeholder"],
+        "shrink_scalars": [_set(["publish", "jobs"], 1), _set(["compare", "jobs"], 1)],
+        "components": comp(["file system: simulated disk implementing core.FileWriter", "q (query engine): real, un-instrumented (no concurrency inside)"]),
+        "assumptions": [
+            "inputs and configurations are sampled by seed",
+            "only the library work behind each command is run; cmd/gedcom glue is not",
+        ],
+    },
 }
